@@ -1,6 +1,7 @@
 import Mathlib.Tactic.Linarith
 import Mathlib.Algebra.Order.Field.Rat
 import Mathlib.Algebra.Order.AbsoluteValue.Basic
+import Mathlib.Tactic.NormNum
 import Pun.Model.Query
 import Pun.Gen.GridGen
 /-!
@@ -364,5 +365,18 @@ def CondensationContainsStatement : Prop :=
     (∃ m, 2 ≤ m ∧ m ≤ Gen.steps ∧ lv.length = m ∧
       ∀ (j : Nat) (p : ℚ), lv[j]? = some p → |p - (Gen.pLo + (Gen.pHi - Gen.pLo) * j / (m - 1 : ℚ))| ≤ 1 / 10 ^ 12) →
     allLE C.left P.left = true ∧ allLE P.right C.right = true
+
+/-! ## non-vacuity: concrete instances of the hypotheses used above (grid `[1/4, 1/2, 3/4]`, three steps) -/
+
+def okIs (r : Except Err Ivl) (c : Ivl) : Bool := match r with | .ok x => x == c | .error _ => false
+
+example : okIs (alphaCut [1/4, 1/2, 3/4] ⟨[1, 2, 4], [2, 5, 6]⟩ (3/5)) (2, 5) = true := by decide +kernel
+example : okIs (cutRaw [1/4, 1/2, 3/4] ⟨[1, 2, 4], [2, 5, 6]⟩ (3/8)) (1, 2) = true := by decide +kernel   -- tie: first
+example : okIs (getPI [1/4, 1/2, 3/4] ⟨[1, 2, 4], [2, 5, 6]⟩ (1/2) true) (2, 4) = true := by decide +kernel
+example : okIs (getPI [1/4, 1/2, 3/4] ⟨[1, 2, 4], [2, 5, 6]⟩ (1/2) false) (1, 6) = true := by decide +kernel
+example : okIs (getPI [1/4, 1/2, 3/4] ⟨[1, 2, 4], [5, 5, 6]⟩ (1/2) true) (1, 6) = true := by decide +kernel  -- fall-back
+example : okIs (cdf [1/4, 1/2, 3/4] ⟨[1, 2, 4], [2, 5, 6]⟩ 3) (1/4, 1/2) = true := by decide +kernel
+example : stepOf 2 [1, 2, 2, 4] 3 = 2 ∧ stepOf 3 [1, 2, 2, 4] 2 = 2 ∧ stepOf 3 [1, 2, 2, 4] 0 = 0 := by decide +kernel
+example : ([1/4, 1/2, 3/4] : List ℚ).Pairwise (· ≤ ·) := by norm_num
 
 end Pun.Props.C18
